@@ -184,6 +184,25 @@ def _observations(c, i):
             return None
         ms, tok = _marks(tok[1:])
         return [(list(range(len(recs))), recs, set(fin), list(fin), ms)]
+    if c[0] == "c10.live":
+        nt = int(c[2])
+        n = int(c[3 + nt])
+        recs, rest = _recs(c[4 + nt:], n, 1)
+        finish = [int(x) for x in rest[1:1 + int(rest[0])]]
+        refused = [k for k in range(n) if recs[k][4] != "0"]
+        if not i or not i[0].isdigit() or int(i[0]) != n:
+            return None
+        tok = i[1 + 3 * n:]
+        na = int(tok[0])
+        acked = [int(x) for x in tok[1:1 + na]]
+        if any(k not in finish for k in acked) or len(set(acked)) != na:
+            return None
+        before, tok = _marks(tok[1 + na:])
+        if tok[0] != "0":
+            return None
+        after, tok = _marks(tok[1:])
+        fin = set(acked) | set(refused)
+        return [(list(range(n)), recs, fin, list(acked), before), (list(range(n)), recs, fin, list(acked), after)]
     if c[0] == "c10.pipe":
         n = int(c[5])
         recs, _ = _recs(c[6:], n, 1)
@@ -254,7 +273,7 @@ def c10_nontrivial(c, i):
         return len(i) > 1 and i[0].isdigit() and int(i[0]) >= 1
     if c[0] == "c10.pipe":
         return "ack" in i
-    if c[0] in ("c10.start", "c10.stop"):
+    if c[0] in ("c10.start", "c10.stop", "c10.live"):
         return len(i) > 1 and i[0].isdigit() and int(i[0]) >= 1
     return False
 
@@ -282,6 +301,18 @@ def c10_classify(c, i):
         out.append("stop:finished=" + ("none" if nf == 0 else "all" if nf == n else "some"))
         out.append("stop:records=" + ("1" if n == 1 else "2-4" if n <= 4 else "5+"))
         if i and not i[0].isdigit(): out.append("stop:" + i[0].split(":")[0])
+    elif c[0] == "c10.live":
+        nt = int(c[2])
+        n = int(c[3 + nt])
+        kinds = [c[4 + nt + 5 * k + 4] for k in range(n)]
+        nf = int(c[4 + nt + 5 * n])
+        out.append("live:procs=" + c[1])
+        if "1" in kinds: out.append("live:tombstone")
+        if "2" in kinds: out.append("live:malformed-json")
+        if all(k == "0" for k in kinds): out.append("live:all-ordinary")
+        nord = kinds.count("0")
+        out.append("live:finished=" + ("none" if nf == 0 else "all" if nf == nord else "some"))
+        if i and not i[0].isdigit(): out.append("live:" + i[0].split(":")[0])
     elif c[0] == "c10.pipe":
         out.append("pipe:procs=" + c[1])
         out.append("pipe:" + ("async" if c[2] == "1" else "sync"))
@@ -312,7 +343,7 @@ CFG = {
     "classify": c10_classify,
     "signatures": {"c10_spread_reorder": c10_spread_reorder},
     "trace": True,
-    "rule": "c10.pack: boundary grid of (index, partition, offset, epoch) in and around the packing ranges plus random values of random bit length and full-range values; c10.marks: every commit order of every subset of 1..4 (thorough 5) records of one partition, then random record sets over 1-4 partitions committed in consumption order / with adjacent swaps / shuffled, plus records outside the packing range; c10.start: the real Plugin.Start against an in-process fake broker (ApiVersions + Metadata), real Assigned callback, real consume loops, real Commit: every topic list over three names up to length 4 (thorough 5), duplicates included, one record per configured name, then random lists / record sets; c10.stop: the real plugin end to end against an in-process broker speaking the consumer-group protocol (join, sync, fetch, offset commit, leave): records are fetched by the real poll loop, a prefix / subset / all / none of them is acknowledged through Commit, then the real Plugin.Stop runs; observed = the committed offsets the broker holds (every prefix of 1..4 (6) records of one partition, every subset up to 3, random sets over several topics and partitions); c10.pipe: real pipeline, 1/2/4 processors, pool capacity 1-6, sync or queueing output, random discard flags, release order from the PRNG. distinct = distinct case line; non-trivial = in-range packing input / at least one commit observed",
+    "rule": "c10.pack: boundary grid of (index, partition, offset, epoch) in and around the packing ranges plus random values of random bit length and full-range values; c10.marks: every commit order of every subset of 1..4 (thorough 5) records of one partition, then random record sets over 1-4 partitions committed in consumption order / with adjacent swaps / shuffled, plus records outside the packing range; c10.start: the real Plugin.Start against an in-process fake broker (ApiVersions + Metadata), real Assigned callback, real consume loops, real Commit: every topic list over three names up to length 4 (thorough 5), duplicates included, one record per configured name, then random lists / record sets; c10.stop: the real plugin end to end against an in-process broker speaking the consumer-group protocol (join, sync, fetch, offset commit, leave): records are fetched by the real poll loop, a prefix / subset / all / none of them is acknowledged through Commit, then the real Plugin.Stop runs; observed = the committed offsets the broker holds (every prefix of 1..4 (6) records of one partition, every subset up to 3, random sets over several topics and partitions); c10.live: real pipeline whose input is the real plugin (pipeline.Start / pipeline.Stop), the same broker, a holding output; records of kind tombstone (empty value) or malformed JSON are refused by the real In (no event): every kind sequence up to length 2 (3) of one partition x every subset of the ordinary records acknowledged, then random sets with refused records sprinkled in; observed = In's answers, the marks before the stop, the broker's offsets after it; c10.pipe: real pipeline, 1/2/4 processors, pool capacity 1-6, sync or queueing output, random discard flags, release order from the PRNG. distinct = distinct case line; non-trivial = in-range packing input / at least one commit observed",
     "corr_name": "Gen.KafkaPack defs = real packing functions; KafkaCommit.commitPacked / step? = Plugin.Commit + kgo marks / observed pipeline trace; topicID / commitStarted = Start's topic ids + Commit's Topics[index]",
     "trusted_base": [
         "go2lean (Go AST -> Lean translator); its output is compared with the real functions on every run (c10.pack)",
